@@ -20,4 +20,4 @@ def specs():
 def bounded(tier, seed, pr):
     from pyvc.boundedrun import run_bounded
 
-    return [run_bounded(pr, "b_corpus.py", "corpus_edits_reexecution_only_in_cone", args={"mode": "c02"}, timeout=1500)]
+    return [run_bounded(pr, "b_corpus.py", "corpus_edits_reexecution_only_in_cone", args={"mode": "c02"}, timeout=1500), run_bounded(pr, "b_api.py", "native_scenarios_hit", args={"groups": ["hit"]})]
